@@ -191,8 +191,12 @@ def concealEnd (th : Nat) (startIdx : Int) (ms : List Message) : List Message :=
   if th = 0 then ms else
   let r := scanEndRev th uint32Invalid ms.reverse
   let ms1 := r.1.reverse
-  let ri := recAt ms1 r.2
-  let ov := decide (startIdx > r.2)
+  -- `if lastConcealStartIndex > lastConcealEndIndex { lastConcealEndIndex = -1 }` (/repo fix of KF-C20-4): when the
+  -- stretches overlap the record the backward scan stops at was already concealed by the start stage — no record is
+  -- left revealed, exactly as when the scan finds none
+  let endIdx : Int := if startIdx > r.2 then -1 else r.2
+  let ri := recAt ms1 endIdx
+  let ov := decide (startIdx > endIdx)
   (updEndRev sesPH ri ov (updEndRev lapPH ri ov r.1)).reverse
 
 /-- `concealer.Conceal(mesgs, first, last)` -/
